@@ -107,7 +107,8 @@ PCV_OP(params_dr)
   double alpha = get_alpha_deleglise_rivat(x);
   int128_t limit = get_max_x(alpha);
   int64_t y = (int64_t)(iroot<3>(x) * alpha);
-  int64_t z = y > 0 ? (int64_t)(x / y) : -1;
+  // pi_deleglise_rivat_128 throws before z is computed when x > limit: z is then reported as -2
+  int64_t z = (x > limit) ? -2 : (y > 0 ? (int64_t)(x / y) : -1);
   int64_t c = PhiTiny::get_c(y);
   uint64_t b; std::memcpy(&b, &alpha, 8);
   return i128s(y) + " " + i128s(z) + " " + i128s(c) + " " + (x <= limit ? "1" : "0") + " " + u128s(b);
